@@ -327,8 +327,13 @@ def query_points_3d(rng, faces, cells, A, b, n=8):
         hi = [max(c[m] for c in cells) + 1 for m in range(3)]
         for _ in range(n):
             q0 = [float(rng.integers(-2, 4 * hi[m] + 3)) / 4 for m in range(3)]
-            if rng.random() < 0.5:
+            u = rng.random()
+            if u < 0.4:
                 q0 = [round(2 * v) / 2 for v in q0]
+            elif u < 0.6:
+                # on a lattice line (two integer coordinates): collinear with cube edges
+                k = int(rng.integers(0, 3))
+                q0 = [v if m == k else float(round(v)) for m, v in enumerate(q0)]
             out.append([float(v) for v in apply_affine(A, b, q0)])
     else:
         allp = [p for f in faces for p in f]
